@@ -117,6 +117,7 @@ type machine struct {
 	chosen       map[string]uint64
 	poolMode     int
 	hadViolation bool
+	hangCheck    bool
 	timers       []*vtimer
 	now          *term
 	nowCount     int
@@ -353,6 +354,8 @@ func (m *machine) resetPathState(prefix []int64, mdl model) {
 	m.objState = map[interface{}]interface{}{}
 	m.allocDepth = 0
 	m.inconclusive = 0
+	m.hangCheck = false
+	m.maxSteps = m.world.cfg.maxSteps
 	m.resetEnvModels()
 }
 
